@@ -7,7 +7,7 @@ import SaModel.Lemmas.C08Explore
 import SaModel.Lemmas.C08Loop
 import SaModel.Lemmas.C08NotWalkable
 import SaModel.Lemmas.C08SAgree
-import SaModel.Lemmas.C08GDone
+import SaModel.Lemmas.C08GConv
 import SaModel.Lemmas.C08Class
 /-
 C08 — tracing yields the documented mapping; from_type and from_samples agree.
@@ -29,6 +29,8 @@ Proved for ALL inputs:
   SaModel/Lemmas/C08Covers.lean: values of the type in any order, with any repetitions and any extra values, that
   together exercise every variant, a `Some` of every `Option`, an element of every sequence / map) — same hypotheses as
   `C08_agree`; `C08_sample_invariant` (the tracer after ANY values `xs` of the type is `sstate ty xs`);
+  `C08_covers_iff_complete` (`covers` ⇔ the tracer is the complete tracer), `C08_covering_covers` (the canonical list is
+  covering);
   `C08_agree_map_as_struct_false`, `C08_agree_guess_dates_needed`: the two documented exclusions are real.
 * `C08_from_type_class`, `C08_agree_all_class`: for types that can be walked the agreement includes the error CLASS
   (`AgreeC`, table `SameClass`, SaModel/Lemmas/C08Class.lean: budget, unknown overwrite path, wrong overwrite name,
@@ -475,6 +477,19 @@ theorem C08_agree_all (c : Code) (o : Options) (ty : Ty) (xs : List SVal) (hw : 
     (hu : uniqueNames ty = true) (hs : smallEnums ty = true) (hb : passes ty ≤ o.from_type_budget)
     (hc : Covers o ty xs) : fromSamples c o xs = fromType c o ty :=
   agree_covers c o ty xs hw hu hs hb hc
+
+/-- `covers` is EXACTLY what the tracer needs to see the whole type: the tracer of the values `xs` is, up to the sample
+counters of struct nodes, the complete tracer `done` of `from_type` if and only if `covers ty xs` — a collection that
+misses a variant, a `Some`, an element, … leaves an `unknown` node or an `absent` variant slot behind -/
+theorem C08_covers_iff_complete (o : Options) (ty : Ty) (n p : String) (nl : Bool) (xs : List SVal) :
+    covers ty xs = true ↔ erase (sstate o n p nl ty xs) = done o n p nl ty :=
+  covers_iff_done o ty n p nl xs
+
+/-- the canonical list `covering ty` of `C08_agree` is a covering collection, for every type the theorems are about:
+`Covers` is satisfiable for all of them and `C08_agree` is the instance `xs := covering ty` of `C08_agree_all` -/
+theorem C08_covering_covers (c : Code) (o : Options) (ty : Ty) (hw : walkable o "$" ty = true)
+    (hu : uniqueNames ty = true) (hs : smallEnums ty = true) : Covers o ty (covering ty) :=
+  covering_Covers c o ty hw hu hs
 
 /-- a record type with an `Option<Vec<String>>`, a tuple, a map (traced as a map) and an enum with the four variant kinds
 whose newtype variant holds another `Option` -/
